@@ -26,7 +26,7 @@ def build_and_demo(demo_c, tag):
         r = sh('cmake -G Ninja -S %s -B %s -DCMAKE_BUILD_TYPE=%s %s && cmake --build %s' % (WT, b, bt, ('-DCMAKE_C_FLAGS=' + cf) if cf else '', b))
         if r.returncode: return {'build': 'FAILED', 'log': (r.stdout + r.stderr)[-800:]}
     exe = '/tmp/seed_demo_%s' % tag
-    c = sh('gcc -O1 ' + cf + ' -I%s/include -DPOLYSEED_STATIC %s %s/libpolyseed.a -lutf8proc -lpthread -lm -o %s' % (WT, demo_c, b, exe))
+    c = sh('gcc -O1 ' + cf + (' -I%s/include -DPOLYSEED_STATIC %s %s/libpolyseed.a -lutf8proc -lpthread -lm ' % (WT, demo_c, b)) + os.environ.get('SEED_LDFLAGS', '') + ' -o ' + exe)
     if c.returncode: return {'build': 'ok', 'suite_passes': suite, 'demo': 'COMPILE FAILED', 'log': c.stderr[-800:]}
     try:
         d = subprocess.run([exe], capture_output=True, text=True, timeout=300)
